@@ -437,7 +437,7 @@ def formatCommand(command):
     return ' '.join(command)
 
 def checkCommandCapability(msg, cb, commandName):
-    plugin = cb.name().lower()
+    plugin = cb.canonicalName()
     if not isinstance(commandName, minisix.string_types):
         assert commandName[0] == plugin, ('checkCommandCapability no longer '
                 'accepts command names that do not start with the callback\'s '
